@@ -827,8 +827,10 @@ func resetGenerations(c *mc.Ctx) {
 	}
 	rec(nil)
 	c.Rep.Extra["reset-generations"] = map[string]int{"generation1": len(gen1), "generation2": len(g2)}
-	c.Par("reset-generations", len(gen1)*2*len(g2), func(w *mc.W, i int) {
-		gi, force, hi := i/(2*len(g2)), (i/len(g2))%2 == 1, i%len(g2)
+	// generation 1 may be VERIFIED before the Reset (nothing a verification leaves behind - a memoised verdict, scratch
+	// scalars, a cached coefficient stream - may survive into generation 2): pre = none / VerifyBatchOnly / Verify
+	c.Par("reset-generations", len(gen1)*3*2*len(g2), func(w *mc.W, i int) {
+		gi, pre, force, hi := i/(6*len(g2)), (i/(2*len(g2)))%3, (i/len(g2))%2 == 1, i%len(g2)
 		v := newBV(i)
 		var m []ment
 		var hops []bop
@@ -839,6 +841,12 @@ func resetGenerations(c *mc.Ctx) {
 		}
 		for _, o := range gen1[gi] {
 			do(o)
+		}
+		switch pre {
+		case 1:
+			do(bop{kind: 7, rd: 0})
+		case 2:
+			do(bop{kind: 6, rd: 0})
 		}
 		do(bop{kind: 5})
 		if force {
@@ -855,8 +863,8 @@ func resetGenerations(c *mc.Ctx) {
 		}
 	})
 	if !c.Replaying() {
-		c.Rep.Traces += int64(len(gen1) * 2 * len(g2))
-		c.Rep.Transitions += int64(len(gen1) * 2 * len(g2))
+		c.Rep.Traces += int64(len(gen1) * 6 * len(g2))
+		c.Rep.Transitions += int64(len(gen1) * 6 * len(g2))
 	}
 }
 
